@@ -816,15 +816,19 @@ def run(rep, tier, seed, parts=None):
     common.load_wavespectra()
     v = variant(seed)
     rep.rule = (
-        "full products: times {1,2,3} x layouts {1..3 stations; lat x lon in (1,1),(1,2),(2,1),(2,3),(3,2)} x nf {2,3} x nd {4,6} x "
-        "direction order {sorted from 0, rotated half a turn, descending, shuffled (first two not neighbours)} x magnitude-class offset (spectrum k gets class[(k+off)%6] of {1, all-zero, 1e4, "
-        "all-NaN, 1e-8, mixed over 10 decades}; all 6 offsets when the dataset has < 6 spectra, {0,3} otherwise, so every class occurs in "
-        "every dataset family) x {without, with wspd/wdir/dpt}; plus a float32 sub-product; every spectrum and every bin of a dataset is "
-        "distinct. Each dataset is written and read back with every in-scope pair under every option: SWAN ASCII (plain/.gz x ntime "
-        "None/1/2; as_site for stations), Octopus (one site, whole-degree dirs; plain/.gz x ntime None/1/2), JSON, wavespectra netCDF-3 "
-        "(packed/unpacked x read_netcdf/read_wavespectra), WW3 netCDF-3 (stations), Funwave (one spectrum, clip=False, bare (freq,dir) and "
-        "time=1,site=1 wrapped, 6 classes x 2 dtypes). thorough adds 4 stations, 2x2/3x3 grids, descending latitudes, "
-        "all 6 offsets, full float32 product. Non-trivial = the dataset holds at least one finite non-zero spectrum.")
+        "Complete products, no sampling. Datasets: times {1,2,3} x layouts {1..3 stations; lat x lon in (1,1),(1,2),(2,1),(2,3),(3,2)} x "
+        "nf {2,3} x nd {4,6} x direction order {sorted from 0, rotated half a turn, descending, shuffled (first two stored directions not "
+        "neighbours)} x magnitude-class offset (spectrum k of a dataset is of class[(k+off)%6] out of {~1, all-zero, ~1e4, all-NaN, ~1e-8, "
+        "mixed over 10 decades}; quick: off in range(0,6,N) for a dataset of N<6 spectra, {0,3} otherwise, so that every class occurs at "
+        "every shape; thorough: all 6 offsets) x {without, with wspd/wdir/dpt} plus a float32 sub-product (quick: 2 times, nf 2, nd 4, "
+        "sorted; thorough: full). Every spectrum of a dataset differs from every other one in every bin, so a permutation of positions, "
+        "times, frequencies or directions is visible. Each dataset goes through every in-scope pair under every option: SWAN ASCII "
+        "(plain/.gz x ntime None/1/2; read as_site for stations), JSON, wavespectra netCDF-3 (unpacked/packed x read_netcdf/"
+        "read_wavespectra), WW3 netCDF-3 (stations), Octopus (one site as a station or a 1x1 grid, whole-degree directions; thorough: the "
+        "full product above x plain/.gz x ntime None/1/2; quick, because one file costs 0.4 s: (nf,nd) in {(2,4),(3,6)}, options "
+        "{plain x ntime None/1/2, .gz}), Funwave (one spectrum, clip=False: bare (freq,dir) and time=1 x site=1 datasets x nf x nd x order "
+        "x 6 classes x 2 dtypes). thorough adds 4 stations, 2x2 and 3x3 grids and descending latitudes. Non-trivial = the dataset holds "
+        "at least one finite non-zero spectrum.")
     rep.extra["alphabet"] = dict(freqs=v["freqs"], dir_start=v["dstart"], dir_start_octopus=v["dstart_whole"], class_order=v["classes"],
                                  times=TIMES, site_lon=SITE_LON, site_lat=SITE_LAT, grid_lat=GRID_LAT, grid_lon=GRID_LON)
     rep.assumptions = [
@@ -841,7 +845,9 @@ def run(rep, tier, seed, parts=None):
         "matched by index, grid cells by their coordinate values; SWAN ASCII does not store site labels, so labels are compared only for "
         "JSON/netCDF/WW3",
         "wind/depth variables are present in half of the datasets to exercise the writers; their values are not compared (not in the statement)",
-        "magnitudes stay below the int32 range of the packed netCDF encoding (2.1e4 m2/Hz/deg)",
+        "magnitudes stay below the int32 range of the packed netCDF encoding (2.1e4 m2/Hz/deg); for Funwave the large class is ~1e2 so "
+        "that amplitudes stay below 100 m, the widest number the fixed-width %12.8f columns keep separated",
+        "Octopus needs the split frequency fcut=0.125 Hz (writer default) strictly inside the frequency range: every frequency table does",
     ]
     items = work_items(tier, seed, parts)
     rep.extra["datasets_x_formats"] = len(items)
